@@ -6,6 +6,7 @@ import ChythonModel.Proofs.C11Record
 import ChythonModel.Proofs.C11V3000
 import ChythonModel.Proofs.C11RdfFrame
 import ChythonModel.Gen.PeriodicTable
+import ChythonModel.Spec.MdlOptions
 /-!
 # C11 — MDL write→read preserves the record: property theorems
 
@@ -359,5 +360,50 @@ example : (∀ l ∈ [sL "$RDFILE 1\n", sL "$DATM    01/01/26 00:00\n"], isFmt l
     WFRBlock 100 [sL "title\n", sL "M  END\n", sL "$DTYPE k\n", sL "$DATUM v\n"] ∧ WFRBlock 100 [sL "garbage $MFMT\n"] ∧
     rdfMStart [sL "title\n", sL "M  END\n", sL "$DTYPE k\n", sL "$DATUM v\n"] = 2 :=
   ⟨by decide, by decide, by decide, ⟨by decide, by decide, by decide⟩, ⟨by decide, by decide, by decide⟩, by decide⟩
+
+/-! ## 9. option forwarding (table regenerated by an AST walk over `chython/files/*.py`: `Gen/MdlOptions.lean`;
+obligations from the docstrings: `Spec/MdlOptions.lean`) -/
+section options
+open ChythonModel.Gen.MdlOptions ChythonModel.Spec.MdlOptions
+
+/-- Full statement: every documented option of every reader reaches every call site of the helper family the
+    documentation names, in the molecule branch and in the reaction branch alike. False of the code today (known finding
+    `C11/options/RDFRead/mol-record/*`): witness in `Findings/C11.lean`. -/
+def OptionsReachFull : Prop := allDropped units = []
+
+/-- the promised forwards the source does not make today: the `$MFMT` branch of `RDFRead.read_structure` calls
+    `postprocess_parsed_molecule(tmp)` without `remap=` / `ignore=` -/
+def knownDropped : List Dropped :=
+  [("RDFRead.read_structure", "mol", "postprocess_parsed_molecule", "remap"),
+   ("RDFRead.read_structure", "mol", "postprocess_parsed_molecule", "ignore")]
+
+/-- **options_reach_partial**: on the regenerated table every (reader, branch, helper call, documented option) with the
+    helper in the option's family has the option as keyword of the same name or as guard — except exactly `knownDropped` -/
+theorem options_reach_partial : ∀ d ∈ allDropped units, d ∈ knownDropped := by decide +kernel
+
+/-- **options_parallel_partial**: two call sites of one reader whose helpers belong to the same family (the molecule and
+    the reaction branch; the V2000 and the V3000 parser) are reached by the same public options, whatever the options
+    are — except the pair involving the known `$MFMT` site -/
+theorem options_parallel_partial : ∀ d ∈ parallelDiffs units,
+    d.1 = "RDFRead.read_structure" ∧
+      (d.2.1 = "postprocess_parsed_molecule@mol" ∨ d.2.2 = "postprocess_parsed_molecule@mol") := by decide +kernel
+
+/-- **readers_complete**: each of the five public readers is in the table, offers the five documented options, and
+    every branch it must have builds its record through all three helper families (a deleted call is a missing row) -/
+theorem readers_complete : ∀ r ∈ expectedReaders, ∃ u ∈ units, u.unit = r.1 ∧
+    (∀ o ∈ documentedOptions, o ∈ u.options) ∧ ∀ b ∈ r.2, branchComplete u b = true := by decide +kernel
+
+/-- every keyword a reader forwards is a keyword of the helper's regenerated signature -/
+theorem forwarded_keywords_exist : keywordsExist units calleeKeywords = true := by decide +kernel
+
+/-- the table is not trivially small: 6 units, 26 call sites, and the obligations are not vacuous (a site that lost
+    `calc_cis_trans` is reported by `droppedAt`) -/
+example : units.length = 6 ∧ (units.map (·.sites.length)).sum = 26 ∧
+    droppedAt { file := "", unit := "u", options := ["calc_cis_trans", "ignore_stereo"], sites := [] }
+      { branch := "mol", callee := "postprocess_molecule", family := "stereo", line := 0,
+        reach := [("ignore_stereo", "ignore_stereo")] } = [("u", "mol", "postprocess_molecule", "calc_cis_trans")] := by
+  decide +kernel
+
+end options
 
 end ChythonModel.Props.C11
